@@ -73,6 +73,17 @@ def build_ops(spec):
     backend = "-greedy" if i % 5 else "solver"
     op = C.build_pipe_op(spec, backend=backend, profile="nasty" if i % 2 == 0 else None,
                          peer_kinds=["optimal", "optimal", "no_model"])
+    if i % 13 == 5 and backend == "-greedy":
+        # sharing bait: a chain of (DUP1, op) pairs builds a term DAG of linear size and exponential tree size
+        k = rf.choice([6, 9, 11]) if spec["tier"] == "quick" else rf.choice([8, 11, 16, 22])
+        chain = []
+        for _ in range(k):
+            chain += [("DUP1", None), (rf.choice(["ADD", "ADD", "MUL", "XOR"]), None)]
+        flags = [a for a in op["argv"][1:] if a not in ("-bl", "-single-json")]
+        desc = op["desc"]
+        op = C.bl_op([[("CALLVALUE", None)] + chain], flags)
+        op["desc"] = desc
+        op["fmt"] = "bl"
     names = block_names(op)
     twin = None
     if i % 3 != 0 and names:
@@ -100,6 +111,28 @@ def build_ops(spec):
     return op, twin, names
 
 
+def input_shape(op):
+    """Coarse shape of the input, used to attribute a budget overrun: 'dup-chain' = a run of >= 12 consecutive (DUPk, binary op)
+    pairs, i.e. a term DAG with exponential tree size (recorded finding C10-dup-chain)."""
+    import re
+    text = " ".join(str(v) for v in op["files"].values())
+    if op.get("fmt") != "bl":
+        names = re.findall(r'"name": "([A-Z0-9]+)"', text)
+    else:
+        names = [t for t in text.split() if not t.startswith("0x")]
+    best = run = 0
+    i = 0
+    while i + 1 < len(names):
+        if re.fullmatch(r"DUP\d+", names[i]) and names[i + 1] in ("ADD", "MUL", "AND", "OR", "XOR", "SUB", "DIV", "EXP", "LT", "GT", "EQ", "SHL", "SHR"):
+            run += 1
+            best = max(best, run)
+            i += 2
+        else:
+            run = 0
+            i += 1
+    return "dup-chain" if best >= 12 else "other"
+
+
 def exc_class(res):
     e = res["exc"]
     return [e["type"], str(e["frame"])]
@@ -116,7 +149,7 @@ def check(spec):
     summ["evals"] += 1
     rp = {"op": op, "twin": twin}
     if st in ("cpu", "mem"):
-        return summ, [{"class": ["limit", st, op["desc"]["backend"]], "detail": "fault-free run hit the %s budget | argv %s | input %s" % (
+        return summ, [{"class": ["limit", st, input_shape(op), op["desc"]["backend"]], "detail": "fault-free run hit the %s budget | argv %s | input %s" % (
             st, " ".join(op["argv"][1:]), list(op["files"].values())[0][:400]), "replay": rp}]
     if st != "ok":
         summ["harness"] += 1
